@@ -61,11 +61,18 @@ def scenario(exe, r, run, stats, witness):
             return [(sm.latency, b), (sm.latency + 7, b)]
         return None
     sim.fault = fault
+    if r.random() < 0.25:
+        # one datagram write of the server fails with ENOBUFS
+        sim.cmd("failsend %d" % r.choice([1, 2, 3, 4, 5, 7, 9, 12, 16, 22, 30]))
 
     def on_event(sm, ev):
         k = ev["e"]
         t = ev.get("t", sm.now)
-        if k == "wire" and ev["from"] == EP:
+        if k in ("wire", "wirefail") and ev["from"] == EP:
+            # (a write the socket refused - failsend - is a message the server produced and
+            # the network lost)
+            if k == "wirefail":
+                stats["failed_writes"] = stats.get("failed_writes", 0) + 1
             try:
                 m = cw.decode(bytes.fromhex(ev["b"]), "udp")
             except Exception:
@@ -108,6 +115,13 @@ def scenario(exe, r, run, stats, witness):
             if m["type"] in (0, 1) and o6 and m["code"] == 0x45:
                 if m["mid"] in ob.mids:
                     return            # retransmission of a notification
+                if k == "wirefail":
+                    # first write refused: coap_send() failed, nothing left the server; the
+                    # library marks the observer dirty and notifies again (same state, so
+                    # possibly the same Observe value under a new message id)
+                    stats["notifications_refused_by_socket"] = \
+                        stats.get("notifications_refused_by_socket", 0) + 1
+                    return
                 ob.mids[m["mid"]] = t
                 val = int.from_bytes(o6[0], "big") if o6[0] else 0
                 ob.notifs.append((t, m["mid"], m["type"], val, m["payload"]))
